@@ -214,6 +214,27 @@ func propC11(c *Ctx) {
 		scanSpecCase(c, content)
 		runScanCase(c, content, ops)
 	}
+	// longer contents with sparse line breaks and long multi-unreads
+	sparse := []rune{'x', 'y', 'x', 'y', 'x', 'y', 'x', 'y', 'x', 'y', 'x', 'y', '\n', '\r', 0xe9, ' '}
+	for i := 0; i < nRand/10; i++ {
+		n := 30 + c.Rng.Intn(120)
+		content := make([]rune, n)
+		for j := range content {
+			content[j] = sparse[c.Rng.Intn(len(sparse))]
+		}
+		var ops []string
+		for j := 0; j < n+c.Rng.Intn(3); j++ {
+			ops = append(ops, "r")
+		}
+		for j := 0; j < 4; j++ {
+			k := 20 + c.Rng.Intn(60)
+			ops = append(ops, fmt.Sprintf("m%d", k), "p")
+			for q := c.Rng.Intn(k + 4); q > 0; q-- {
+				ops = append(ops, "r")
+			}
+		}
+		runScanCase(c, content, ops)
+	}
 }
 
 func replayC11(c *Ctx, op string) {
